@@ -25,6 +25,14 @@ pub fn prop_names(prop: &str) -> &'static [&'static str] {
 }
 
 pub fn generate(prop: &str, rng: &mut Rng, tier: &str) -> Scenario {
+    let mut sc = generate_inner(prop, rng, tier);
+    // alias routes: each selected with probability 1/4 (drawn last: the scenario itself is unaffected)
+    let r = rng.next();
+    sc.alias = ((r & (r >> 11)) as u32) & ((1u32 << crate::c07::ALIAS_BITS) - 1);
+    sc
+}
+
+fn generate_inner(prop: &str, rng: &mut Rng, tier: &str) -> Scenario {
     match prop {
         "C07" => crate::c07::generate(rng, tier),
         "C13" => crate::c13::generate(rng, tier),
